@@ -297,8 +297,8 @@ func (g *GoBackNConn) Close() error {
 
 		// We close the quit channel to stop the usual operations of the
 		// server.
-		close(g.quit)
 		vtrace(g.timeoutManager, "closeQuit")
+		close(g.quit)
 
 		// Try send a FIN message to the peer if they have not already
 		// done so.
